@@ -66,10 +66,10 @@ def run(prop, tier, seed, scratch, replay=None):
     vlib.require_tlc_ok(scope, "exhaustive exploration (custom scope)")
     # wallet-level stage (C08, C03): the same specification driven through wallet.Wallet's account / address API
     wl = None
-    if prop in ("C08", "C03"):
+    if prop in ("C08", "C03", "C05"):
         wdrv = vlib.build_driver(scratch, "replay-wallet")
         wtr = scratch.path("wallet.ndjson")
-        wev = 40 if tier == "quick" else 4
+        wev = 100 if tier == "quick" else 8
         wbfs = vlib.run_tlc(scratch, "AddrMgr.tla", "MC_AddrMgr_wallet.cfg", out_traces=wtr, tag="wallet", timeout=900,
                             emit_every=wev, emit_offset=seed)
         vlib.require_tlc_ok(wbfs, "exhaustive exploration (wallet-level stage)")
@@ -81,9 +81,10 @@ def run(prop, tier, seed, scratch, replay=None):
         wl["_states"], wl["_transitions"] = wbfs["distinct"], wbfs["generated"]
         wl["_selftest"] = vlib.binding_selftest(
             scratch, wdrv, lambda i, o: ["-in", i, "-out", o, "-spec", "addrmgr-wallet", "-prop", prop, "-seed", seed, "-workers", vlib.NCPU],
-            wtr, ["accts"] if prop == "C08" else ["step.a.first"], tag="wl-selftest",
-            where=(lambda tr: len(tr.get("steps") or []) >= 3) if prop == "C08" else
-                  (lambda tr: tr.get("steps") and tr["steps"][-1]["op"] == "NextAddr" and tr["steps"][-1]["ret"] == "ok"))
+            wtr, {"C08": ["accts"], "C03": ["step.a.first"], "C05": ["step.ret"]}[prop], tag="wl-selftest",
+            where={"C08": (lambda tr: len(tr.get("steps") or []) >= 3),
+                   "C03": (lambda tr: tr.get("steps") and tr["steps"][-1]["op"] == "NextAddr" and tr["steps"][-1]["ret"] == "ok"),
+                   "C05": (lambda tr: tr.get("steps") and tr["steps"][-1]["op"] in ("Unlock", "ChangeBoth"))}[prop])
     every = EVERY_C10[tier] if prop == "C10" else EVERY[tier][fam]
     vlib.run_driver(drv, ["-in", traces, "-out", report, "-prop", prop, "-seed", seed, "-workers", vlib.NCPU], timeout=7200)
     rep = vlib.load_report(report)
